@@ -91,6 +91,8 @@ VERUS_UNITS = {
             (r'(start|end)_despawn_reaction$', ['C03', 'C04', 'C07']),
             (r'(start|end)_entity_event$', ['C03', 'C04', 'C05']),
             (r'(start|end)_broadcast_event$', ['C03', 'C04', 'C05']),
+            (r'(SystemCommand|EventCommand|ReactionCommand)::apply$', ['C03', 'C04']),
+            (r'\w+AccessTracker::prepare$', ['C03']),
         ],
         'negctl': [
             ('cleanup_spec(old(world), final(world), old(world).event().data_entity),', 'ecs_same(old(world), final(world)),', 'end_entity_event'),
@@ -133,6 +135,13 @@ VERUS_UNITS = {
         'negctl': [
             ('new.eq_spec(&old(self).component) ==> (r is None && final(self).component == old(self).component && (*final(c)).log() == (*old(c)).log()),',
              'new.eq_spec(&old(self).component) ==> (r is None && final(self).component == old(self).component && (*final(c)).log().len() == (*old(c)).log().len() + 1),', 'React::set_if_neq'),
+        ],
+    },
+    'react_commands': {
+        'template': 'react_commands.rs.tpl',
+        'owners': [(r'ReactCommands::insert$', ['C14', 'C18', 'C01']), (r'ReactCommands::(broadcast|entity_event|trigger_resource_mutation)$', ['C01', 'C14']), (r'ReactCommands::revoke$', ['C06'])],
+        'negctl': [
+            ('!old(self).commands.alive().contains(entity) ==> final(self).commands.log() == old(self).commands.log(),', '!old(self).commands.alive().contains(entity) ==> final(self).commands.log().len() == old(self).commands.log().len() + 1,', 'ReactCommands::insert'),
         ],
     },
     'lemmas': {
